@@ -74,6 +74,7 @@ func hasDangling(labels []string) bool {
 
 // c09Flatten runs one Flatten and applies the fail-safe oracle.
 func c09Flatten(c *Ctx, in *flatInput, o h.Opts, pol mcrt.Policy) {
+	c.Begin(&Violation{Signature: "fatal crash of the process", Generator: "c09", Input: in.B, Env: J{"policy": int(pol), "opts": o, "kind": "flatten"}})
 	r := h.RunFlatten(in.B, o, h.Env{Policy: pol}, nil)
 	c.Execs++
 	c.Validated++
@@ -103,6 +104,7 @@ func modeOf(o h.Opts) string {
 
 // c09NewAndSchema: New on every document of the bundle, Schema on every schema position of the root.
 func c09NewAndSchema(c *Ctx, in *flatInput, pol mcrt.Policy) {
+	c.Begin(&Violation{Signature: "fatal crash of the process", Generator: "c09", Input: in.B, Env: J{"policy": int(pol), "kind": "new"}})
 	for f, d := range in.B.Files {
 		sw, err := h.LoadSwagger(d)
 		if err != nil {
